@@ -46,7 +46,7 @@ def check_C20(tier, seed, replay=None):
             if not ok:
                 print("VIOLATION property=C20 replay=%s" % replay)
             return 0 if ok else 1
-        nscen = 57
+        nscen = 58
         rounds = 4 if tier == "quick" else 24
         total = nscen * rounds
         outdir = os.path.join(b.scratch, "out")
@@ -401,7 +401,7 @@ def check_hist(prop, tier, seed, replay=None):
             if not ok:
                 print("VIOLATION property=%s replay=%s" % (r.get("prop", prop), replay))
             return 0 if ok else 1
-        nops = 52
+        nops = 53
         if prop == "C10":
             total = nops * (48 if tier == "quick" else 640)
         else:
